@@ -152,6 +152,12 @@ def sig_blob(k, hash_type, variant, z_fn):
         sb = b"\0"
     if variant == "rn":
         rb = der_int(N)
+    if variant == "sn":          # S = group order: overflows, consensus treats the signature as (0, 0) - low, and invalid
+        sb = der_int(N)
+    if variant == "smax":        # S = 2^256 - 1
+        sb = der_int(2**256 - 1)
+    if variant == "sn+low":      # S = n + a small value
+        sb = der_int(N + 5)
     if variant == "r33":
         rb = b"\x01" + b"\0" * 32
     body = b"\x02" + bytes([len(rb)]) + rb + b"\x02" + bytes([len(sb)]) + sb
@@ -322,7 +328,8 @@ def build_tx(case, script_sig=b"", witness=()):
     for i in range(n_ins):
         ins.append({"prev_hash": sha256(b"prev%d" % i), "prev_index": i, "script": b"" if i != n_in else script_sig,
                     "sequence": case.get("sequence", 0xffffffff) if i == n_in else (0xfffffffe - i),
-                    "witness": list(witness) if i == n_in else []})
+                    # the other inputs: every second one looks like a native segwit input (empty scriptSig, a witness)
+                    "witness": list(witness) if i == n_in else ([b"\x30\x06sibling", b"\x02key"] if i % 2 else [])})
     outs = [{"value": 1000 + o, "script": bytes([0x51 + o])} for o in range(case.get("n_outs", 1))]
     return {"version": case.get("version", 1), "locktime": case.get("locktime", 0), "ins": ins, "outs": outs}
 
